@@ -91,6 +91,24 @@ func runExchangeExt(c *Case, level int, exts []graphsync.ExtensionData) *Exchang
 }
 
 func runExchangeFull(c *Case, level int, setup func(x *Exchange), exts []graphsync.ExtensionData) *Exchange {
+	x := RunExchangeAsyncExt(c, level, setup, exts)
+	x.Hung, x.Inconcl = AwaitDone(x.W, x.Req)
+	if !x.Hung && x.Inconcl == "" {
+		if ok, why := x.W.Quiesce(); !ok {
+			x.Inconcl = "no quiescence after completion: " + why
+		}
+	}
+	x.SkipSent = FirstSkip(x.W.Fab.Wire(), x.A.ID, x.Req.ID)
+	return x
+}
+
+// RunExchangeAsync starts the exchange and returns without waiting for the request.
+func RunExchangeAsync(c *Case, level int, setup func(x *Exchange)) *Exchange {
+	return RunExchangeAsyncExt(c, level, setup, nil)
+}
+
+// RunExchangeAsyncExt is RunExchangeAsync with request extensions.
+func RunExchangeAsyncExt(c *Case, level int, setup func(x *Exchange), exts []graphsync.ExtensionData) *Exchange {
 	w := NewWorld()
 	x := &Exchange{W: w}
 	x.Pert = NewPerturber(c.PertSeed, level)
@@ -106,13 +124,6 @@ func runExchangeFull(c *Case, level int, setup func(x *Exchange), exts []graphsy
 		setup(x)
 	}
 	x.Req = w.Request(x.A, x.B.ID, c.DAG.Root, c.Sel, exts...)
-	x.Hung, x.Inconcl = AwaitDone(w, x.Req)
-	if !x.Hung && x.Inconcl == "" {
-		if ok, why := w.Quiesce(); !ok {
-			x.Inconcl = "no quiescence after completion: " + why
-		}
-	}
-	x.SkipSent = FirstSkip(w.Fab.Wire(), x.A.ID, x.Req.ID)
 	return x
 }
 
